@@ -45,3 +45,13 @@ Theorem C06_built_no_adjacent_boundary_everywhere :
   forall t, check t = Ok None -> forall sp ts, sub (TCat sp ts) t -> adjacent_boundary ts = None.
 Proof. exact built_no_adjacent_boundary_everywhere. Qed.
 Print Assumptions C06_built_no_adjacent_boundary_everywhere.
+
+From WaxModel Require Import Parse.
+From WaxProofs Require Import ZomFacts.
+
+(* the rule "no two zero-or-more wildcards become adjacent" inside one concatenation is enforced by the parser itself (the
+   rule checker only looks across branch edges): no concatenation of a parsed expression, at any depth, has two adjacent
+   zero-or-more wildcards - `**` reads as a tree wildcard, `*$`, `$*`, `$$`, `*(?i)*` do not parse *)
+Theorem C06_parser_never_puts_two_zero_or_more_wildcards_together : forall e t, parse e = ParseOk t -> zom_ok t = true.
+Proof. exact parse_no_adjacent_zom. Qed.
+Print Assumptions C06_parser_never_puts_two_zero_or_more_wildcards_together.
